@@ -164,8 +164,15 @@ pub fn toml_text(thorough: bool) -> Report {
     } }
     // ---- store
     for i in 0..PAYLOADS.len() {
-        let s = Store { metadata: meta_table(i) };
+        // i == 0: the EMPTY store (no metadata yet) - it must be writable and readable like any other
+        let s = if i == 0 { Store::default() } else { Store { metadata: meta_table(i) } };
         o.put("store", &s, json!({"metadata": table_to_json(&s.metadata)}), &mut r);
+        // "types that can also be read back by libcnb return a value equal to the one written"
+        let p = o.dir.join(format!("{:05}.toml", o.n));
+        match libcnb::read_toml_file::<Store>(&p) {
+            Ok(back) => if back.metadata != s.metadata { r.violation("read_back", "store read back differs", format!("{s:?}"), format!("{s:?}"), format!("{back:?}")); },
+            Err(e) => r.violation("read_back", "a store written by libcnb cannot be read back by libcnb", format!("{s:?} written as {:?}", std::fs::read_to_string(&p).unwrap_or_default()), "Ok".into(), format!("{e:?}")),
+        }
     }
     // ---- exec.d output through fd 3 of a child process
     let rtbp = std::env::current_exe().unwrap().parent().unwrap().join("rtbp");
